@@ -493,17 +493,23 @@ func genHsaco() {
 			if !ok {
 				return true
 			}
-			if (be.Op == token.EQL && nodeString(be.X) == "sym.Size") || (be.Op == token.ADD && nodeString(be.X) == "kdOffset") {
+			if (be.Op == token.EQL && nodeString(be.X) == "sym.Size") || (be.Op == token.ADD && nodeString(be.X) == "kdOffset") ||
+				(be.Op == token.GEQ && strings.ReplaceAll(nodeString(be.X), " ", "") == "dataLen-kdOffset") {
 				if v, ok := hsInt(be.Y); ok {
 					kdSizes = append(kdSizes, strconv.FormatInt(v, 10))
 				}
 			}
 			return true
 		})
-		if len(kdSizes) != 3 {
-			fatalf("hsaco: findV5KernelDescriptor: expected sym.Size == n and two kdOffset+n, found %v", kdSizes)
+		fsrc := nodeString(fk.Body)
+		if !strings.Contains(fsrc, "sym.Value >= rodataSection.Addr") || !strings.Contains(fsrc, "kdOffset <= dataLen") ||
+			!strings.Contains(fsrc, "dataLen := uint64(len(rodataSectionData))") {
+			fatalf("hsaco: findV5KernelDescriptor: the non-wrapping range guards (sym.Value >= rodataSection.Addr, kdOffset <= dataLen) are missing")
 		}
-		b.WriteString("/-- `sym.Size == n`, `kdOffset+n <= len`, `data[kdOffset : kdOffset+n]` -/\n")
+		if len(kdSizes) != 3 {
+			fatalf("hsaco: findV5KernelDescriptor: expected sym.Size == n, dataLen-kdOffset >= n and kdOffset+n, found %v", kdSizes)
+		}
+		b.WriteString("/-- `sym.Size == n`, `dataLen-kdOffset >= n`, `data[kdOffset : kdOffset+n]` -/\n")
 		b.WriteString("def kdSizes : List Nat := [" + strings.Join(kdSizes, ", ") + "]\n\n")
 	}
 
